@@ -23,6 +23,14 @@ theorem alias_convention : registry.all (fun d => d.params.all aliasOk) = true :
 theorem registry_moves_ok : registry.all (fun d => movesOk (d.params.map RParam.toParam)) = true := by
   decide +kernel
 
+/-- no `*` parameter of a registered definition has a default (the side condition of
+    `C12.mapArgs_of_getDelegate` / `C12.spelling_mapArgs_agree`), and some definitions have `*` / `**` -/
+theorem registry_star_no_default :
+    registry.all (fun d => (d.params.map RParam.toParam).all fun p => !p.isStar || p.default.isNone) = true ∧
+    registry.any (fun d => (Yaql.Resolve.starParam (d.params.map RParam.toParam)).isSome) = true ∧
+    registry.any (fun d => (Yaql.Resolve.starStarParam (d.params.map RParam.toParam)).isSome) = true := by
+  decide +kernel
+
 /-- the table is not empty and has definitions of every kind -/
 theorem registry_kinds :
     registry.length > 200 ∧
